@@ -216,3 +216,36 @@ func containsToken(s, tok string) bool {
 func isIdentChar(c byte) bool {
 	return c == '_' || c >= '0' && c <= '9' || c >= 'a' && c <= 'z' || c >= 'A' && c <= 'Z'
 }
+
+// LowerBound returns the integer lower bound that the fact establishes for the expression key:
+// "c < e" gives c+1, "c <= e" gives c, "e == c" gives c. ok=false when the fact says nothing.
+func (f Fact) LowerBound(key string) (int64, bool) {
+	var n int64
+	parse := func(s string) bool { _, err := fmt.Sscan(s, &n); return err == nil && fmt.Sprint(n) == s }
+	switch f.Op {
+	case "<":
+		if f.B == key && parse(f.A) {
+			return n + 1, true
+		}
+	case "<=":
+		if f.B == key && parse(f.A) {
+			return n, true
+		}
+	case "==":
+		if f.B == key && parse(f.A) {
+			return n, true
+		}
+		if f.A == key && parse(f.B) {
+			return n, true
+		}
+	case "!=":
+		// unsigned e != 0 gives e >= 1 (caller must know e is unsigned)
+		if f.B == key && parse(f.A) && n == 0 {
+			return 1, true
+		}
+		if f.A == key && parse(f.B) && n == 0 {
+			return 1, true
+		}
+	}
+	return 0, false
+}
